@@ -6,6 +6,7 @@ import (
 	"strings"
 	"sync"
 	"time"
+	"unsafe"
 
 	"github.com/pion/webrtc/v4"
 
@@ -335,6 +336,29 @@ func runLifecycle(c *Ctx, plan any) {
 	for _, info := range c.Run.PCs() {
 		if !info.Closed {
 			info.PC.OnICEConnectionStateChange(nil)
+		}
+	}
+	// state that the group lock protects must not leave it by reference:
+	// whoever holds such a reference reads it without the lock while
+	// members chatting or clearing write it under the lock
+	for name, g := range group.VerifGroups() {
+		h := g.GetChatHistory()
+		simrt.Reenter()
+		if len(h) == 0 {
+			continue
+		}
+		c.Count("probe.history_getter_checked", 1)
+		var base unsafe.Pointer
+		var n int
+		simrt.NoYield(func() { base, n = g.VerifHistoryData(), g.VerifHistoryCap() })
+		if base == nil {
+			continue
+		}
+		p0 := uintptr(unsafe.Pointer(unsafe.SliceData(h)))
+		size := unsafe.Sizeof(h[0])
+		if p0 >= uintptr(base) && p0 < uintptr(base)+uintptr(n)*size {
+			c.Violation("C13.protected-state-escapes", "GetChatHistory of group %s returns a slice that shares its memory with the group's own history buffer: its users (the history replay of a joining client) read chat-history state without the group lock", name)
+			return
 		}
 	}
 	c.Count("whip.sessions", int64(len(sessions)))
